@@ -9,8 +9,13 @@
 (* book   "none" | "source" (built from the source file) | "cache"         *)
 (*        (loaded from an intact cache: equal to the source book) |        *)
 (*        "partial" (anything else)                                        *)
-(* The process performs Rounds initialisations in a row (a new Book value  *)
-(* each time, as the engine does when the book option is toggled), each:   *)
+(* root   the Book object knows the key of its root entry (set by a        *)
+(*        successful load and by a rebuild, zeroed by Reset)               *)
+(* The process performs Rounds initialisations in a row - on a new Book    *)
+(* value (as the engine does when the book option is toggled) or on the    *)
+(* same object after Reset() - and between two initialisations the file    *)
+(* may get into any state (Damage: another process, a crash).  Each        *)
+(* initialisation:                                                         *)
 (*   load:   open the cache (missing -> rebuild); lock; decode; on success *)
 (*           unlock and use it; on a decode error the ORIGINAL code returns*)
 (*           with the mutex still held (FixUnlock = FALSE)                 *)
@@ -24,49 +29,56 @@ EXTENDS Integers, TLC
 
 CONSTANTS Rounds, FixUnlock
 
-VARIABLES file, lock, book, pc, round
+VARIABLES file, lock, book, pc, round, root
 
-vars == <<file, lock, book, pc, round>>
+vars == <<file, lock, book, pc, round, root>>
 
 FileStates == {"missing", "empty", "prefix", "garbage", "intact"}
 
-Init == /\ file \in FileStates /\ lock = FALSE /\ book = "none" /\ pc = "open" /\ round = 1
+Init == /\ file \in FileStates /\ lock = FALSE /\ book = "none" /\ pc = "open" /\ round = 1 /\ root = FALSE
 
 Open ==      \* os.Open of the cache file
     /\ pc = "open"
     /\ pc' = IF file = "missing" THEN "build" ELSE "lockload"
-    /\ UNCHANGED <<file, lock, book, round>>
+    /\ UNCHANGED <<file, lock, book, round, root>>
 
 LockLoad ==  \* bookLock.Lock() before decoding
     /\ pc = "lockload" /\ ~lock
     /\ lock' = TRUE /\ pc' = "decode"
-    /\ UNCHANGED <<file, book, round>>
+    /\ UNCHANGED <<file, book, round, root>>
 
 Decode ==    \* gob decode: succeeds only for an intact file
     /\ pc = "decode"
     /\ IF file = "intact"
-       THEN /\ book' = "cache" /\ lock' = FALSE /\ pc' = "done"
+       THEN /\ book' = "cache" /\ lock' = FALSE /\ pc' = "done" /\ root' = TRUE
        ELSE /\ book' = "partial"                      \* the decoder may have filled in something
             /\ lock' = IF FixUnlock THEN FALSE ELSE lock
-            /\ pc' = "build"
+            /\ pc' = "build" /\ UNCHANGED root
     /\ UNCHANGED <<file, round>>
 
-Build ==     \* read the source, reset the map, process every line under the mutex
+Build ==     \* read the source, make a new map with the root entry (its key is computed HERE, whatever the object knew
+             \* before), process every line under the mutex
     /\ pc = "build" /\ ~lock
-    /\ book' = "source" /\ pc' = "save"
+    /\ book' = "source" /\ pc' = "save" /\ root' = TRUE
     /\ UNCHANGED <<file, lock, round>>
 
 Save ==      \* lock, encode, unlock
     /\ pc = "save" /\ ~lock
     /\ file' = "intact" /\ pc' = "done"
-    /\ UNCHANGED <<lock, book, round>>
+    /\ UNCHANGED <<lock, book, round, root>>
 
-NextRound == \* the next initialisation in the same process starts with a new, empty Book value
+NextRound == \* the next initialisation in the same process: a new, empty Book value - or the same object after Reset()
+             \* (either way the book is empty and the object does not know its root key any more)
     /\ pc = "done" /\ round < Rounds
-    /\ round' = round + 1 /\ pc' = "open" /\ book' = "none"
+    /\ round' = round + 1 /\ pc' = "open" /\ book' = "none" /\ root' = FALSE
     /\ UNCHANGED <<file, lock>>
 
-Next == Open \/ LockLoad \/ Decode \/ Build \/ Save \/ NextRound
+Damage ==    \* between two initialisations the cache file may get into any state
+    /\ pc = "done" /\ round < Rounds
+    /\ file' \in FileStates
+    /\ UNCHANGED <<lock, book, pc, round, root>>
+
+Next == Open \/ LockLoad \/ Decode \/ Build \/ Save \/ NextRound \/ Damage
 Spec == Init /\ [][Next]_vars /\ WF_vars(Next)
 
 TypeOK == file \in FileStates /\ lock \in BOOLEAN /\ book \in {"none", "source", "cache", "partial"}
@@ -74,8 +86,9 @@ TypeOK == file \in FileStates /\ lock \in BOOLEAN /\ book \in {"none", "source",
 \* the process never waits for the mutex while nobody can release it (single process: held = stuck)
 NoHang == ~(pc \in {"lockload", "build", "save"} /\ lock)
 \* a finished initialisation yields the book of the source file
-ResultIsSourceBook == pc = "done" => book \in {"source", "cache"}
+ResultIsSourceBook == pc = "done" => (book \in {"source", "cache"} /\ root)
 \* and leaves an intact cache behind whenever it had to rebuild
-CacheRepaired == (pc = "done" /\ book = "source") => file = "intact"
-Terminates == <>(pc = "done" /\ round = Rounds)
+CacheRepaired == [][(pc = "save" /\ pc' = "done") => file' = "intact"]_vars
+\* (Damage may be taken any number of times: termination is checked for the initialisations themselves)
+Terminates == []<>(pc = "done")
 =============================================================================
